@@ -148,6 +148,33 @@ func (c16) Gen(env *Env, seed uint64, tier string, i int) *Case {
 			c.Targets = append(c.Targets, strings.TrimPrefix(f.Path, ProjDir+"/"))
 		}
 	}
+	if r.Chance(1, 6) && len(all) > 0 {
+		// a file inside an excluded directory, named explicitly AFTER the directory
+		// that encloses it: the walk of the directory does not cover it
+		ch := all[r.Intn(len(all))]
+		o := GoFileOpts{Funcs: 1, Style: "canonical"}
+		if ch.T.Decl != nil {
+			o.Decls = append(o.Decls, ch.T.Decl(r, ch.K))
+		} else {
+			o.Stmts = append(o.Stmts, ch.T.Stmt(r, ch.K))
+		}
+		if ch.T.Imports != nil {
+			o.Imports = append(o.Imports, ch.T.Imports(ch.K)...)
+		}
+		rel := r.Pick([]string{"testdata/fix/in.go", "vendor/dep/c.go", "_tools/gen.go", ".hidden/h.go"})
+		top := ProjDir + "/" + strings.SplitN(rel, "/", 2)[0]
+		clash := false
+		for _, n := range c.Spec.Nodes {
+			if n.Path == top && n.Kind != "dir" {
+				clash = true // a decoy non-directory already carries that name
+			}
+		}
+		if !clash {
+			c.AddFile(rel, GenValidGoFile(r, o), "match", nil, "")
+			c.Targets = []string{r.Pick([]string{".", "./..."}), rel}
+			c.Extra["explicit_in_excluded"] = "1"
+		}
+	}
 	if sub == "inputs" {
 		c16Inputs(c, r)
 	}
